@@ -13,6 +13,7 @@ import (
 	"strconv"
 	"strings"
 
+	"google.golang.org/protobuf/proto"
 	"google.golang.org/protobuf/types/descriptorpb"
 
 	"verif/gen"
@@ -114,14 +115,12 @@ func runPlugins(c *genCase, pluginName string, env []string) error {
 
 var pkgErrRe = regexp.MustCompile(`(?m)^# genmod/(\S+)`)
 
-// compileAll writes the generated packages of the cases into one scratch module and builds it.
-func compileAll(scratch string, cases []*genCase) error {
-	os.RemoveAll(scratch)
+// writeScratchModule creates go.mod / go.sum of a scratch module "genmod" with the same module graph as the
+// verif module (known to resolve offline from the module cache).
+func writeScratchModule(scratch string) error {
 	if err := os.MkdirAll(scratch, 0o755); err != nil {
 		return err
 	}
-	defer os.RemoveAll(scratch)
-	// same module graph as the verif module (known to resolve offline from the module cache)
 	vd := os.Getenv("VERIF_DIR")
 	if vd == "" {
 		vd = "/verif"
@@ -139,7 +138,19 @@ func compileAll(scratch string, cases []*genCase) error {
 			sum = append(sum, b...)
 		}
 	}
-	os.WriteFile(filepath.Join(scratch, "go.sum"), sum, 0o644)
+	return os.WriteFile(filepath.Join(scratch, "go.sum"), sum, 0o644)
+}
+
+// compileAll writes the generated packages of the cases into one scratch module and builds it.
+func compileAll(scratch string, cases []*genCase) error {
+	os.RemoveAll(scratch)
+	if err := os.MkdirAll(scratch, 0o755); err != nil {
+		return err
+	}
+	defer os.RemoveAll(scratch)
+	if err := writeScratchModule(scratch); err != nil {
+		return err
+	}
 	any := false
 	for _, c := range cases {
 		if c.res == nil || len(c.res.Files) == 0 {
@@ -569,6 +580,135 @@ func c16MultiFile(chunk, chunks int) func(r *vp.InstResult) {
 	}
 }
 
+// c16Imports: the request and response types of a service come from another proto file whose Go package has
+// the same base name as a package the generated or the static code imports (fmt, gorums, encoding, ...). The
+// plugin must emit code that compiles whatever local names protogen hands out.
+func c16Imports(r *vp.InstResult) {
+	bases := []string{"encoding", "fmt", "gorums", "context", "proto", "protoreflect", "ordering", "grpc", "codes", "status", "emptypb", "sync", "time", "dev", "wire"}
+	scratch := filepath.Join(buildDir, "scratch", "imports")
+	os.RemoveAll(scratch)
+	defer os.RemoveAll(scratch)
+	type impCase struct {
+		base  string
+		files map[string]map[string]string // directory (relative to the module) -> file -> content
+	}
+	var cases []*impCase
+	legal := legalMethods()
+	for _, base := range bases {
+		pkg := "imp" + base
+		msgFile := &descriptorpb.FileDescriptorProto{
+			Name:    proto.String(pkg + "/shared/msgs.proto"),
+			Package: proto.String(pkg + "shared"),
+			Syntax:  proto.String("proto3"),
+			Options: &descriptorpb.FileOptions{GoPackage: proto.String("genmod/" + pkg + "/shared/" + base)},
+		}
+		for _, m := range []string{"Req", "Resp", "Custom"} {
+			msgFile.MessageType = append(msgFile.MessageType, &descriptorpb.DescriptorProto{
+				Name: proto.String(m),
+				Field: []*descriptorpb.FieldDescriptorProto{{
+					Name: proto.String("value"), Number: proto.Int32(1), JsonName: proto.String("value"),
+					Label: descriptorpb.FieldDescriptorProto_LABEL_OPTIONAL.Enum(), Type: descriptorpb.FieldDescriptorProto_TYPE_STRING.Enum(),
+				}},
+			})
+		}
+		spec := gen.ServiceSpec{Pkg: pkg, Service: "Svc", Messages: []string{"Local"}}
+		for i, m := range legal {
+			m.Name = fmt.Sprintf("M%d", i)
+			m.In, m.Out = "."+pkg+"shared.Req", "."+pkg+"shared.Resp"
+			if m.CustomRet != "" {
+				m.CustomRet = "Local"
+			}
+			spec.Methods = append(spec.Methods, m)
+		}
+		fd := spec.File()
+		fd.Dependency = append(fd.Dependency, msgFile.GetName())
+		extra := map[string]*descriptorpb.FileDescriptorProto{msgFile.GetName(): msgFile}
+		for k, v := range repoDescs() {
+			extra[k] = v
+		}
+		deps, err := gen.Deps(fd, extra)
+		if err != nil {
+			r.Error = err.Error()
+			return
+		}
+		res, err := gen.Run(plugin("protoc-gen-gorums"), nil, fd, deps, "")
+		if err != nil {
+			r.Error = err.Error()
+			return
+		}
+		r.Execs++
+		if res.Exit != 0 || res.Error != "" {
+			diag, _ := res.Diagnostic()
+			addViol(r, "C16/legal-rejected", "types imported from a package named "+base, fmt.Sprintf("a service whose message types are imported from Go package %q is rejected: %s", "genmod/"+pkg+"/shared/"+base, firstLine(diag)), nil)
+			continue
+		}
+		goSvc, err := gen.Run(plugin("protoc-gen-go"), nil, fd, deps, "")
+		if err != nil {
+			r.Error = err.Error()
+			return
+		}
+		goMsg, err := gen.Run(plugin("protoc-gen-go"), nil, msgFile, nil, "")
+		if err != nil {
+			r.Error = err.Error()
+			return
+		}
+		c := &impCase{base: base, files: map[string]map[string]string{pkg: {}, pkg + "/shared/" + base: {}}}
+		for n, content := range res.Files {
+			c.files[pkg][filepath.Base(n)] = content
+		}
+		for n, content := range goSvc.Files {
+			c.files[pkg][filepath.Base(n)] = content
+		}
+		for n, content := range goMsg.Files {
+			c.files[pkg+"/shared/"+base][filepath.Base(n)] = content
+		}
+		cases = append(cases, c)
+	}
+	// one scratch module for all of them
+	if err := writeScratchModule(scratch); err != nil {
+		r.Error = err.Error()
+		return
+	}
+	for _, c := range cases {
+		for dir, fs := range c.files {
+			os.MkdirAll(filepath.Join(scratch, dir), 0o755)
+			for n, content := range fs {
+				os.WriteFile(filepath.Join(scratch, dir, n), []byte(content), 0o644)
+			}
+		}
+	}
+	cmd := exec.Command("go", "build", "./...")
+	cmd.Dir = scratch
+	cmd.Env = append(os.Environ(), "GOFLAGS=-mod=mod", "GOPROXY=off", "GOSUMDB=off", "GOTOOLCHAIN=local")
+	out, err := cmd.CombinedOutput()
+	if err != nil {
+		text := string(out)
+		idx := pkgErrRe.FindAllStringSubmatchIndex(text, -1)
+		if len(idx) == 0 {
+			r.Error = "go build of the generated packages failed without naming a package: " + firstLine(text)
+			return
+		}
+		for i, m := range idx {
+			end := len(text)
+			if i+1 < len(idx) {
+				end = idx[i+1][0]
+			}
+			pkgPath := text[m[2]:m[3]]
+			for _, c := range cases {
+				if pkgPath == "imp"+c.base {
+					addViol(r, "C16/emits-code-that-does-not-compile", "types imported from a package named "+c.base,
+						fmt.Sprintf("the plugin accepted a service whose message types are imported from a Go package named %q, but the emitted code does not compile: %s", c.base, firstLine(strings.TrimSpace(text[m[1]:end]))), nil)
+				}
+			}
+		}
+	}
+	for _, c := range cases {
+		r.Outcomes["imported package named "+c.base]++
+	}
+	r.States, r.Steps = r.Execs, r.Execs
+	r.Sample = map[string]any{"service": "22 legal methods whose request / response types live in Go package genmod/impencoding/shared/encoding", "expected": "accepted, and the output compiles"}
+}
+
 func c16Zorums(r *vp.InstResult) {
 	// determinism and totality on the repository's own service definitions (dev and normal mode)
 	dirs, err := findGenDirs()
@@ -611,7 +751,7 @@ func c16Zorums(r *vp.InstResult) {
 
 func init() {
 	checks["C16"] = &check{
-		rule:        "small-scope enumeration of proto service definitions fed to the plugin built from the working tree (requests built from synthesised descriptors, no protoc): (a) single-method services over the full lattice of 512 option combinations {quorumcall, async, correctable, multicast, unicast, per_node_arg, custom_return_type, client stream, server stream} x 4 message shapes {local, imported Empty in, imported Empty out, same message}; (b) two-method services over all 484 ordered pairs of the 22 legal combinations with shared and with distinct message types; (c) reserved and unusual identifier spellings for messages, services, methods, plus an enum; (d) determinism: 3 plain runs and runs of a plugin whose map ranges are routed through a controlled iteration order {sorted, reversed, rotations} on legal single / two-method services and on every proto file of the repository; (e) all 484 ordered pairs of legal single-method files with the same method name requested in ONE CodeGeneratorRequest, each output compared with a single-file run; oracle: legality model of doc/method-options.md - legal must be accepted and compile (go build of all emitted packages together with protoc-gen-go output against /repo), documented-illegal and reserved names must end with a diagnostic (not a Go panic), everything else must be rejected or compile; outputs byte-identical across runs and orders; an outcome is (class, plugin result class)",
+		rule:        "small-scope enumeration of proto service definitions fed to the plugin built from the working tree (requests built from synthesised descriptors, no protoc): (a) single-method services over the full lattice of 512 option combinations {quorumcall, async, correctable, multicast, unicast, per_node_arg, custom_return_type, client stream, server stream} x 4 message shapes {local, imported Empty in, imported Empty out, same message}; (b) two-method services over all 484 ordered pairs of the 22 legal combinations with shared and with distinct message types; (c) reserved and unusual identifier spellings for messages, services, methods, plus an enum; services whose request / response types are imported from a Go package named like one the generated or static code imports (encoding, fmt, gorums, context, proto, ...); (d) determinism: 3 plain runs and runs of a plugin whose map ranges are routed through a controlled iteration order {sorted, reversed, rotations} on legal single / two-method services and on every proto file of the repository; (e) all 484 ordered pairs of legal single-method files with the same method name requested in ONE CodeGeneratorRequest, each output compared with a single-file run; oracle: legality model of doc/method-options.md - legal must be accepted and compile (go build of all emitted packages together with protoc-gen-go output against /repo), documented-illegal and reserved names must end with a diagnostic (not a Go panic), everything else must be rejected or compile; outputs byte-identical across runs and orders; an outcome is (class, plugin result class)",
 		assumptions: []string{"descriptors are synthesised programmatically with gorums' extension numbers; protoc's own validation is not in the loop", "'compiles' = go build of the generated package with the protoc-gen-go output of the same file against /repo's runtime"},
 		gen: func(tier string) []instance {
 			var out []instance
@@ -629,6 +769,7 @@ func init() {
 				}
 			}
 			out = append(out, instance{"names", c16Names})
+			out = append(out, instance{"imported-package-names", c16Imports})
 			dc := 4
 			for c := 0; c < dc; c++ {
 				out = append(out, instance{fmt.Sprintf("determinism/chunk%d-of-%d", c, dc), c16Determinism(c, dc)})
